@@ -2,106 +2,150 @@
    Property theorems only.  `safe o` = o is neither Panic nor OutOfFuel (lib/DecLib.v); the decoder
    models are in checked style: every Go index/slice expression that no preceding length check
    guards returns Panic when out of range, every non-structural loop takes fuel.
-   The flag g = false is the code on this tree, g = true the dependency's UnmarshalBytes with the
-   missing guard (ln < 0 || ln+idx < idx -> error).  The flag fx of the field parser and of EscapeJsonStr:
+   The flag g = true is the code (model/DecTree.v: tree_guard): the decoders read their length-prefixed fields through
+   utils.UnmarshalBytes / UnmarshalString, i.e. the guard (ln < 0 || ln+idx < idx -> error) and then the dependency's
+   xbinary.UnmarshalBytes; g = false is the earlier code, which called the dependency's function directly.  The flag fx of the field parser and of EscapeJsonStr:
    true = the code (model/DecTree.v: tree_fields_fx, tree_escape_fx), false = the earlier code.  Unquote / Quote / time.Format are universally
    quantified parameters; go_unquote is the concrete model of strconv.Unquote. *)
 From LR Require Import lib.Base lib.DecLib model.DecTree model.DecXBinary model.DecKV model.DecFields model.DecUtf8 model.DecUnquote model.DecWire model.DecPos model.Json model.Formatter model.DecLqlTime.
 From LR Require Import proofs.DecXBinaryP proofs.DecKVP proofs.DecFieldsP proofs.DecWireP proofs.DecPosP proofs.JsonP proofs.FormatterP proofs.DecStoredP proofs.DecLqlTimeP.
 
-(* ------------------------------------------------------------------ the dependency's varint / bytes decoder *)
+(* ------------------------------------------------------------------ the varint / bytes decoder *)
 
 Theorem C13_total_uint : forall buf, safe (unmarshal_uint buf).
 Proof. intros buf. pose proof (uu_spec buf) as H. split; intros E; rewrite E in H; exact H. Qed.
 Print Assumptions C13_total_uint.
 
-Definition C13_total_bytes_statement : Prop := forall buf, safe (unmarshal_bytes buf).
+Definition C13_total_bytes_statement (g : bool) : Prop := forall buf, safe (unmarshal_bytes_g g buf).
 
-Theorem C13_total_bytes_refuted : exists buf, unmarshal_bytes buf = Panic.
-Proof. exists huge_len. exact huge_len_panics. Qed.
-Print Assumptions C13_total_bytes_refuted.
+(* the code: utils.UnmarshalBytes / UnmarshalString of /repo (tree_guard = true: the guard, then the dependency's
+   function), through which every decoder below reads its length-prefixed fields, is total on every buffer *)
+Theorem C13_total_bytes : C13_total_bytes_statement tree_guard.
+Proof. exact ub_guarded_safe. Qed.
+Print Assumptions C13_total_bytes.
 
-(* no panic as long as decoded length + header stays below 2^63 ... *)
-Theorem C13_total_bytes_partial : forall buf,
+(* what the repair bought: the dependency's xbinary.UnmarshalBytes, which the decoders called directly before
+   (g = false; the dependency is unchanged, K still compares it as it is), panics on a length of 2^63 ... *)
+Theorem C13_total_bytes_unguarded_refuted : ~ C13_total_bytes_statement false.
+Proof. intros H. destruct (H huge_len) as [P _]. exact (P huge_len_panics). Qed.
+Print Assumptions C13_total_bytes_unguarded_refuted.
+
+(* ... does not panic as long as decoded length + header stays below 2^63 ... *)
+Theorem C13_total_bytes_unguarded_partial : forall buf,
   (forall idx uln, unmarshal_uint buf = Ok (idx, uln) -> (Z.of_N uln + idx < two63)%Z) -> safe (unmarshal_bytes buf).
 Proof. intros buf H. split; [exact (ub_small_nopanic buf H)|exact (ub_no_fuel false buf)]. Qed.
-Print Assumptions C13_total_bytes_partial.
+Print Assumptions C13_total_bytes_unguarded_partial.
 
-(* ... and always a panic when the decoded length has bit 63 set (buffers shorter than 2^63 bytes) *)
-Theorem C13_bytes_huge_panics : forall buf idx uln,
+(* ... and always panics when the decoded length has bit 63 set (buffers shorter than 2^63 bytes) *)
+Theorem C13_bytes_unguarded_huge_panics : forall buf idx uln,
   (blen buf < two63)%Z -> unmarshal_uint buf = Ok (idx, uln) -> (two63 <= Z.of_N uln < two64)%Z -> unmarshal_bytes buf = Panic.
 Proof. exact ub_huge_panic. Qed.
-Print Assumptions C13_bytes_huge_panics.
+Print Assumptions C13_bytes_unguarded_huge_panics.
 
-Theorem C13_total_bytes_guarded : forall buf, safe (unmarshal_bytes_g true buf).
-Proof. exact ub_guarded_safe. Qed.
-Print Assumptions C13_total_bytes_guarded.
+(* the guard takes nothing else away: wherever the dependency's function answers with a value or an error, the
+   guarded one gives the same answer *)
+Theorem C13_bytes_guard_conservative : forall buf, unmarshal_bytes buf <> Panic -> unmarshal_bytes_g true buf = unmarshal_bytes buf.
+Proof. exact ub_guard_conservative. Qed.
+Print Assumptions C13_bytes_guard_conservative.
 
 (* ------------------------------------------------------------------ write packet: wpIterator.init + the consumer's Get/Next loop *)
 
-Definition C13_total_wp_statement : Prop := forall buf, safe (wp_run false tree_fields_fx go_unquote buf).
+Definition C13_total_wp_statement (g : bool) : Prop := forall fx unquote buf, safe (wp_run g fx unquote buf).
 
-Theorem C13_total_wp_refuted : exists buf, wp_run false tree_fields_fx go_unquote buf = Panic.
-Proof. exists huge_len. vm_compute. reflexivity. Qed.
-Print Assumptions C13_total_wp_refuted.
+(* the code: total on every request body, for every Unquote and either variant of the field parser *)
+Theorem C13_total_wp : C13_total_wp_statement tree_guard.
+Proof. intros fx unquote buf. exact (wp_run_safe true fx unquote buf (nps_guarded buf)). Qed.
+Print Assumptions C13_total_wp.
 
-(* the only source of a panic is UnmarshalBytes on some suffix of the request buffer *)
-Theorem C13_total_wp_partial : forall fx unquote buf, nopanic_suffixes false buf -> safe (wp_run false fx unquote buf).
+(* the earlier code (the dependency's UnmarshalBytes called directly): the 10-byte varint as the tags field *)
+Theorem C13_total_wp_unguarded_refuted : ~ C13_total_wp_statement false.
+Proof.
+  intros H. destruct (H tree_fields_fx go_unquote huge_len) as [P _]. apply P. vm_compute. reflexivity.
+Qed.
+Print Assumptions C13_total_wp_unguarded_refuted.
+
+(* for it, the only source of a panic was UnmarshalBytes on some suffix of the request buffer: all the slicing
+   of the /repo decoders themselves is in range *)
+Theorem C13_total_wp_unguarded_partial : forall fx unquote buf, nopanic_suffixes false buf -> safe (wp_run false fx unquote buf).
 Proof. intros fx unquote buf H. exact (wp_run_safe false fx unquote buf H). Qed.
-Print Assumptions C13_total_wp_partial.
+Print Assumptions C13_total_wp_unguarded_partial.
 
 (* the same, with the hypothesis on the varints alone *)
-Theorem C13_total_wp_partial_varints : forall fx unquote buf,
+Theorem C13_total_wp_unguarded_partial_varints : forall fx unquote buf,
   (forall k idx uln, unmarshal_uint (skipn k buf) = Ok (idx, uln) -> (Z.of_N uln + idx < two63)%Z) ->
   safe (wp_run false fx unquote buf).
 Proof. intros fx unquote buf H. exact (wp_run_safe false fx unquote buf (nps_of_small_varints buf H)). Qed.
-Print Assumptions C13_total_wp_partial_varints.
-
-Theorem C13_total_wp_guarded : forall fx unquote buf, safe (wp_run true fx unquote buf).
-Proof. intros fx unquote buf. exact (wp_run_safe true fx unquote buf (nps_guarded buf)). Qed.
-Print Assumptions C13_total_wp_guarded.
+Print Assumptions C13_total_wp_unguarded_partial_varints.
 
 (* ------------------------------------------------------------------ query request *)
 
-Definition C13_total_qr_statement : Prop := forall buf, safe (unmarshal_qr false buf).
+Definition C13_total_qr_statement (g : bool) : Prop := forall buf, safe (unmarshal_qr g buf).
 
-Theorem C13_total_qr_refuted : exists buf, unmarshal_qr false buf = Panic.
-Proof. exists ([x00;x00;x00;x00;x00;x00;x00;x01] ++ huge_len). vm_compute. reflexivity. Qed.
-Print Assumptions C13_total_qr_refuted.
-
-Theorem C13_total_qr_partial : forall buf, nopanic_suffixes false buf -> safe (unmarshal_qr false buf).
-Proof. intros buf H. exact (post_safe _ _ (qr_post false buf H)). Qed.
-Print Assumptions C13_total_qr_partial.
-
-Theorem C13_total_qr_guarded : forall buf, safe (unmarshal_qr true buf).
+Theorem C13_total_qr : C13_total_qr_statement tree_guard.
 Proof. intros buf. exact (post_safe _ _ (qr_post true buf (nps_guarded buf))). Qed.
-Print Assumptions C13_total_qr_guarded.
+Print Assumptions C13_total_qr.
+
+Theorem C13_total_qr_unguarded_refuted : ~ C13_total_qr_statement false.
+Proof.
+  intros H. destruct (H ([x00;x00;x00;x00;x00;x00;x00;x01] ++ huge_len)) as [P _]. apply P. vm_compute. reflexivity.
+Qed.
+Print Assumptions C13_total_qr_unguarded_refuted.
+
+Theorem C13_total_qr_unguarded_partial : forall buf, nopanic_suffixes false buf -> safe (unmarshal_qr false buf).
+Proof. intros buf H. exact (post_safe _ _ (qr_post false buf H)). Qed.
+Print Assumptions C13_total_qr_unguarded_partial.
 
 (* ------------------------------------------------------------------ api.LogEvent (inside write packets and query results) *)
 
-Theorem C13_total_apile_refuted : exists buf, unmarshal_api_le false buf = Panic.
-Proof. exists ([x00;x00;x00;x00;x00;x00;x00;x01] ++ huge_len). vm_compute. reflexivity. Qed.
-Print Assumptions C13_total_apile_refuted.
+Definition C13_total_apile_statement (g : bool) : Prop := forall buf, safe (unmarshal_api_le g buf).
 
-Theorem C13_total_apile_partial : forall g buf, nopanic_suffixes g buf -> safe (unmarshal_api_le g buf).
-Proof. intros g buf H. exact (post_safe _ _ (api_le_post g buf H)). Qed.
-Print Assumptions C13_total_apile_partial.
+Theorem C13_total_apile : C13_total_apile_statement tree_guard.
+Proof. intros buf. exact (post_safe _ _ (api_le_post true buf (nps_guarded buf))). Qed.
+Print Assumptions C13_total_apile.
+
+Theorem C13_total_apile_unguarded_refuted : ~ C13_total_apile_statement false.
+Proof.
+  intros H. destruct (H ([x00;x00;x00;x00;x00;x00;x00;x01] ++ huge_len)) as [P _]. apply P. vm_compute. reflexivity.
+Qed.
+Print Assumptions C13_total_apile_unguarded_refuted.
+
+Theorem C13_total_apile_unguarded_partial : forall buf, nopanic_suffixes false buf -> safe (unmarshal_api_le false buf).
+Proof. intros buf H. exact (post_safe _ _ (api_le_post false buf H)). Qed.
+Print Assumptions C13_total_apile_unguarded_partial.
 
 (* ------------------------------------------------------------------ LogEvent.Unmarshal (stored records) *)
 
-Definition C13_total_le_statement : Prop := forall prev buf, safe (le_unmarshal false prev buf).
+Definition C13_total_le_statement (g : bool) : Prop := forall prev buf, safe (le_unmarshal g prev buf).
 
-Theorem C13_total_le_refuted : exists prev buf, le_unmarshal false prev buf = Panic.
-Proof. exists le_zero, ([x20;x00;x00;x00;x00;x00;x00;x00;x01] ++ huge_len). vm_compute. reflexivity. Qed.
-Print Assumptions C13_total_le_refuted.
-
-Theorem C13_total_le_partial : forall prev buf, nopanic_suffixes false buf -> safe (le_unmarshal false prev buf).
-Proof. intros prev buf H. exact (post_safe _ _ (le_unmarshal_post false prev buf H)). Qed.
-Print Assumptions C13_total_le_partial.
-
-Theorem C13_total_le_guarded : forall prev buf, safe (le_unmarshal true prev buf).
+Theorem C13_total_le : C13_total_le_statement tree_guard.
 Proof. intros prev buf. exact (post_safe _ _ (le_unmarshal_post true prev buf (nps_guarded buf))). Qed.
-Print Assumptions C13_total_le_guarded.
+Print Assumptions C13_total_le.
+
+Theorem C13_total_le_unguarded_refuted : ~ C13_total_le_statement false.
+Proof.
+  intros H. destruct (H le_zero ([x20;x00;x00;x00;x00;x00;x00;x00;x01] ++ huge_len)) as [P _]. apply P. vm_compute. reflexivity.
+Qed.
+Print Assumptions C13_total_le_unguarded_refuted.
+
+Theorem C13_total_le_unguarded_partial : forall prev buf, nopanic_suffixes false buf -> safe (le_unmarshal false prev buf).
+Proof. intros prev buf H. exact (post_safe _ _ (le_unmarshal_post false prev buf H)). Qed.
+Print Assumptions C13_total_le_unguarded_partial.
+
+(* ------------------------------------------------------------------ the repair changed nothing but the panics *)
+
+(* on every input on which the earlier decoders answered (a value or an error), the decoders of the code give the
+   same answer: same events handed to the partition, same request, same record *)
+Theorem C13_guard_conservative : forall fx unquote buf,
+  (wp_run false fx unquote buf <> Panic -> wp_run tree_guard fx unquote buf = wp_run false fx unquote buf) /\
+  (unmarshal_qr false buf <> Panic -> unmarshal_qr tree_guard buf = unmarshal_qr false buf) /\
+  (unmarshal_api_le false buf <> Panic -> unmarshal_api_le tree_guard buf = unmarshal_api_le false buf) /\
+  (forall prev, le_unmarshal false prev buf <> Panic -> le_unmarshal tree_guard prev buf = le_unmarshal false prev buf).
+Proof.
+  intros fx unquote buf. split; [exact (wp_run_conservative fx unquote buf)|].
+  split; [exact (qr_conservative buf)|]. split; [exact (api_le_conservative buf)|].
+  intros prev. exact (le_unmarshal_conservative prev buf).
+Qed.
+Print Assumptions C13_guard_conservative.
 
 (* ------------------------------------------------------------------ field / tag text, Check, positions, format strings: total *)
 
@@ -172,7 +216,7 @@ Print Assumptions C13_total_escape_unadvanced_partial.
 (* ------------------------------------------------------------------ what the write path stores *)
 
 (* the code (fx = tree_fields_fx = true: the 255-byte limit is applied to the string that is stored): everything
-   handed to the partition has well-formed fields, for every Unquote and either variant of the dependency *)
+   handed to the partition has well-formed fields, for every Unquote and either variant of the wire decoders *)
 Theorem C13_stored_wf : forall g unquote buf tags evs,
   wp_run g tree_fields_fx unquote buf = Ok (tags, evs) -> Forall (fun le => wf_fields (le_flds le)) evs.
 Proof. intros g unquote buf tags evs. exact (wp_run_wf g true unquote (or_introl eq_refl) buf tags evs). Qed.
@@ -213,13 +257,15 @@ Print Assumptions C13_read_total.
 
 (* ------------------------------------------------------------------ non-vacuity *)
 
-(* a valid two-event packet satisfies the hypothesis of the _partial theorems and decodes to its events *)
+(* a valid two-event packet satisfies the hypothesis of the _unguarded_partial theorems and decodes to its events
+   (with either variant of the decoders), the hostile varint is an error for the code *)
 Example C13_ex_valid_packet :
   nopanic_suffixes false valid_packet /\
-  wp_run false tree_fields_fx go_unquote valid_packet =
+  (forall g, wp_run g tree_fields_fx go_unquote valid_packet =
     Ok ([x61; x3d; x62], [ {| le_ts := 5; le_msg := [x6d; x31]; le_flds := [x01; x66; x01; x76; x01; x67; x01; x68] |};
-                           {| le_ts := 7; le_msg := []; le_flds := [x01; x66; x01; x76] |} ]).
-Proof. exact valid_packet_ok. Qed.
+                           {| le_ts := 7; le_msg := []; le_flds := [x01; x66; x01; x76] |} ])) /\
+  unmarshal_bytes_g tree_guard huge_len = Err /\ wp_run tree_guard tree_fields_fx go_unquote huge_len = Err.
+Proof. split; [exact (proj1 valid_packet_ok)|]. split; [exact (proj2 valid_packet_ok)|]. split; vm_compute; reflexivity. Qed.
 
 (* an Unquote satisfying unquote_short that does unquote: strip the two quote characters *)
 Example C13_ex_unquote_short : unquote_short (fun s => Some (removelast (tl s))) /\
